@@ -2,6 +2,7 @@
 package checks
 
 import (
+	"bytes"
 	"context"
 	"fmt"
 	"io"
@@ -69,6 +70,22 @@ func openVia(how string, ls *ipld.LinkSystem, root ipld.Node) (ipld.Node, error)
 	switch how {
 	case "NewUnixFSFile":
 		return file.NewUnixFSFile(context.Background(), root, ls)
+	case "NewUnixFSFile-any":
+		// the same block decoded without a dag-pb prototype (a caller that
+		// loads with basicnode.Prototype.Any and hands the node to the file
+		// package)
+		if root.Kind() != datamodel.Kind_Map {
+			return file.NewUnixFSFile(context.Background(), root, ls)
+		}
+		var buf bytes.Buffer
+		if err := dagpb.Encode(root, &buf); err != nil {
+			return nil, err
+		}
+		nb := basicnode.Prototype.Any.NewBuilder()
+		if err := dagpb.Decode(nb, &buf); err != nil {
+			return nil, err
+		}
+		return file.NewUnixFSFile(context.Background(), nb.Build(), ls)
 	case "Reify":
 		return unixfsnode.Reify(ipld.LinkContext{Ctx: context.Background()}, root, ls)
 	case "unixfs", "unixfs-preload":
